@@ -231,6 +231,11 @@ func decodeNumeric(format int16, b []byte) (any, *pgErr) {
 			}
 		}
 	}
+	if format == 0 {
+		if v, ok := parseNumericText(strings.TrimSpace(string(b))); ok {
+			return v, nil
+		}
+	}
 	var n pgtype.Numeric
 	tmMu.Lock()
 	err := tm.Scan(1700, format, b, &n)
@@ -267,6 +272,69 @@ func decodeNumeric(format int16, b []byte) (any, *pgErr) {
 		v = q
 	}
 	return v, nil
+}
+
+// parseNumericText accepts Postgres' decimal input syntax with an optional exponent ("1e3", "-2.50", ".5E+2").
+// Integral values come back as *big.Int, others as their plain decimal text. Special values (NaN, Infinity) and
+// anything malformed are left to pgtype (ok == false).
+func parseNumericText(s string) (any, bool) {
+	i, n := 0, len(s)
+	neg := false
+	if i < n && (s[i] == '+' || s[i] == '-') {
+		neg = s[i] == '-'
+		i++
+	}
+	var digits []byte
+	for i < n && isDigit(s[i]) {
+		digits = append(digits, s[i])
+		i++
+	}
+	intDigits, scale := len(digits), 0
+	if i < n && s[i] == '.' {
+		i++
+		for i < n && isDigit(s[i]) {
+			digits = append(digits, s[i])
+			scale++
+			i++
+		}
+	}
+	if len(digits) == 0 || (intDigits == 0 && scale == 0) {
+		return nil, false
+	}
+	exp := 0
+	if i < n && (s[i] == 'e' || s[i] == 'E') {
+		j := i + 1
+		if j < n && (s[j] == '+' || s[j] == '-') {
+			j++
+		}
+		if j >= n || !isDigit(s[j]) || n-j > 6 {
+			return nil, false
+		}
+		e, err := strconv.Atoi(s[i+1:])
+		if err != nil {
+			return nil, false
+		}
+		exp, i = e, n
+	}
+	if i != n || len(digits) > 200000 {
+		return nil, false
+	}
+	exp -= scale // value = digits * 10^exp
+	if exp > int(maxNumericExp) || exp < -int(maxNumericExp) {
+		return nil, false
+	}
+	m, _ := new(big.Int).SetString(string(digits), 10)
+	if neg {
+		m.Neg(m)
+	}
+	if exp >= 0 {
+		return m.Mul(m, new(big.Int).Exp(big.NewInt(10), big.NewInt(int64(exp)), nil)), true
+	}
+	q, r := new(big.Int).QuoRem(m, new(big.Int).Exp(big.NewInt(10), big.NewInt(int64(-exp)), nil), new(big.Int))
+	if r.Sign() == 0 {
+		return q, true
+	}
+	return fracString(m, int32(exp)), true
 }
 
 func isPlainInt(s string) bool {
